@@ -37,6 +37,7 @@ fn main() {
         let vs = match engine.as_str() {
             "e1" => engines::e1::replay(&v),
             e if e.starts_with("e3") => engines::e3::replay(&v),
+            e if e.starts_with("e5") => engines::e5::replay(&v),
             other => {
                 eprintln!("unknown engine {other}");
                 std::process::exit(2);
@@ -105,6 +106,9 @@ fn main() {
         }
         "C13" => engines::e1::run_c13(&a, &shared),
         "C04" => engines::e4::run_c04(&a, &shared),
+        "C08" => engines::e5::run_testers(&a, &shared, "C08"),
+        "C14" => engines::e5::run_testers(&a, &shared, "C14"),
+        "C18" => engines::e5::run_c18_specs(&a, &shared),
         "C06" => engines::e3::run_c06(&a, &shared),
         "C07" => engines::e3::run_c07(&a, &shared),
         "C09" => engines::e3::run_c09(&a, &shared),
